@@ -5,7 +5,7 @@
    exactly m and k entries (the code reads b_signs from them). *)
 From Coq Require Import List Bool Arith QArith.
 From QE Require Import Base.Num Base.Pivot Base.PivotProofs C04.Model
-     C04.Proofs C04.Proofs2 C04.Proofs3 C04.Proofs4 C04.Proofs5 C04.Proofs6 C04.Proofs7 C04.ProofsMM1 C04.ProofsMM2.
+     C04.Proofs C04.Proofs2 C04.Proofs3 C04.Proofs4 C04.Proofs5 C04.Proofs6 C04.Proofs7 C04.Proofs8 C04.Proofs9 C04.ProofsMM1 C04.ProofsMM2 C04.Sep C04.ProofsSep C04.ProofsSep2.
 Import ListNotations.
 Open Scope Q_scope.
 
@@ -79,17 +79,103 @@ Theorem C04_status2_infeasible : forall c m k Aub bub Aeq beq max_iter x lam fn 
 Proof. exact status2_infeasible. Qed.
 Print Assumptions C04_status2_infeasible.
 
-(* not proved (decided per case by the correspondence run + exact oracle only): the converses
-   (infeasible => status 2, optimum exists => status 0, i.e. termination of the lexicographic rule below
-   max_iter) and status 3 => unbounded *)
-Definition C04_status_iff_full : Prop :=
-  forall c m k Aub bub Aeq beq max_iter x lam fn success status ni,
-    length bub = m -> length beq = k ->
-    linprog_simplex c m k Aub bub Aeq beq max_iter opts0 = (x, lam, fn, success, status, ni) ->
-    let n := length c in
-    ((forall x', ~ primal_feasible n m k Aub bub Aeq beq x') -> status = 2%nat \/ status = 1%nat) /\
-    (status = 3%nat -> (exists x', primal_feasible n m k Aub bub Aeq beq x') /\
-                       forall B, exists x', primal_feasible n m k Aub bub Aeq beq x' /\ B < dotn n c x').
+(* status 3 (tolerances 0, any max_iter): a feasible point and a feasible ray d (d >= 0, A_ub d <= 0,
+   A_eq d = 0) with c.d > 0, hence the objective is unbounded on the feasible set *)
+Theorem C04_status3_unbounded : forall c m k Aub bub Aeq beq max_iter x lam fn success ni,
+  linprog_simplex c m k Aub bub Aeq beq max_iter opts0 = (x, lam, fn, success, 3%nat, ni) ->
+  let n := length c in
+  (exists x0 d, primal_feasible n m k Aub bub Aeq beq x0 /\ feasible_ray n m k Aub Aeq d /\ 0 < dotn n c d) /\
+  lp_unbounded n m k c Aub bub Aeq beq.
+Proof. exact status3_both. Qed.
+Print Assumptions C04_status3_unbounded.
+
+(* optimal / infeasible / unbounded exclude each other *)
+Theorem C04_certificates_exclusive : forall n m k c Aub bub Aeq beq,
+  ~ (lp_optimal n m k c Aub bub Aeq beq /\ lp_infeasible n m k Aub bub Aeq beq) /\
+  ~ (lp_optimal n m k c Aub bub Aeq beq /\ lp_unbounded n m k c Aub bub Aeq beq) /\
+  ~ (lp_infeasible n m k Aub bub Aeq beq /\ lp_unbounded n m k c Aub bub Aeq beq).
+Proof. exact certificates_exclusive. Qed.
+Print Assumptions C04_certificates_exclusive.
+
+(* unless the iteration cap is reported (status 1), the status is exactly the classification of the LP *)
+Theorem C04_status_iff : forall c m k Aub bub Aeq beq max_iter x lam fn success status ni,
+  length bub = m -> length beq = k ->
+  linprog_simplex c m k Aub bub Aeq beq max_iter opts0 = (x, lam, fn, success, status, ni) ->
+  status <> 1%nat ->
+  let n := length c in
+  (status = 0%nat <-> lp_optimal n m k c Aub bub Aeq beq) /\
+  (status = 2%nat <-> lp_infeasible n m k Aub bub Aeq beq) /\
+  (status = 3%nat <-> lp_unbounded n m k c Aub bub Aeq beq).
+Proof. exact status_iff. Qed.
+Print Assumptions C04_status_iff.
+
+(* tolerance irrelevance: if the separation check sep_ok (C04/Sep.v: every quantity compared with a tolerance
+   along the run is <= 0 or > tol, every compared difference of ratios / clean-up entry is 0 or > tol in absolute
+   value) succeeds, the run with tolerances o >= 0 IS the run with tolerance 0 *)
+Theorem C04_tolerance_irrelevant_solve_tableau : forall (o : @PivOptions Q) skip,
+  0 <= fea_tol o -> 0 <= tol_piv o -> 0 <= tol_ratio_diff o ->
+  forall fuel T basis ni,
+    solve_tableau_sep fuel T basis skip o = true ->
+    solve_tableau_loop fuel T basis skip o ni = solve_tableau_loop fuel T basis skip opts0 ni.
+Proof. exact solve_tableau_sep_eq. Qed.
+Print Assumptions C04_tolerance_irrelevant_solve_tableau.
+
+Theorem C04_tolerance_irrelevant_lex_min_ratio_test : forall nr (M : list (list Q)) pv ss tolp tolr,
+  0 <= tolp -> 0 <= tolr -> lex_sep nr M pv ss tolp tolr = true ->
+  lex_min_ratio_test_n nr M pv ss tolp tolr = lex_min_ratio_test_n nr M pv ss 0 0.
+Proof. exact lex_sep_eq. Qed.
+Print Assumptions C04_tolerance_irrelevant_lex_min_ratio_test.
+
+Theorem C04_tolerance_irrelevant : forall c m k Aub bub Aeq beq max_iter (o : @PivOptions Q),
+  0 <= fea_tol o -> 0 <= tol_piv o -> 0 <= tol_ratio_diff o ->
+  linprog_sep c m k Aub bub Aeq beq max_iter o = true ->
+  linprog_simplex c m k Aub bub Aeq beq max_iter o = linprog_simplex c m k Aub bub Aeq beq max_iter opts0.
+Proof. exact tolerance_irrelevant. Qed.
+Print Assumptions C04_tolerance_irrelevant.
+
+(* corollaries for the run with the tolerances of the current source (Gen/Consts.v) under sep_ok *)
+Theorem C04_status0_certificate_src : forall c m k Aub bub Aeq beq max_iter x lam fn success ni,
+  length bub = m -> length beq = k ->
+  linprog_sep c m k Aub bub Aeq beq max_iter opts_src = true ->
+  linprog_simplex c m k Aub bub Aeq beq max_iter opts_src = (x, lam, fn, success, 0%nat, ni) ->
+  let n := length c in
+  success = true /\
+  primal_feasible n m k Aub bub Aeq beq x /\
+  dual_feasible n m k c Aub Aeq lam /\
+  dotn n c x == fn /\ fn == dual_obj m k bub beq lam.
+Proof. exact status0_certificate_src. Qed.
+Print Assumptions C04_status0_certificate_src.
+
+Theorem C04_status_iff_src : forall c m k Aub bub Aeq beq max_iter x lam fn success status ni,
+  length bub = m -> length beq = k ->
+  linprog_sep c m k Aub bub Aeq beq max_iter opts_src = true ->
+  linprog_simplex c m k Aub bub Aeq beq max_iter opts_src = (x, lam, fn, success, status, ni) ->
+  status <> 1%nat ->
+  let n := length c in
+  (status = 0%nat <-> lp_optimal n m k c Aub bub Aeq beq) /\
+  (status = 2%nat <-> lp_infeasible n m k Aub bub Aeq beq) /\
+  (status = 3%nat <-> lp_unbounded n m k c Aub bub Aeq beq).
+Proof. exact status_iff_src. Qed.
+Print Assumptions C04_status_iff_src.
+
+Theorem C04_minmax_certificate_src : forall m n A max_iter v x y,
+  (0 < m)%nat -> (0 < n)%nat -> wf m n A ->
+  minmax_sep m n A max_iter opts_src = true ->
+  minmax_inner_status m n A max_iter = 0%nat ->
+  minmax m n A max_iter opts_src = (v, x, y) ->
+  (forall i, (i < m)%nat -> 0 <= vget x i) /\ sumQ m (vget x) == 1 /\
+  (forall j, (j < n)%nat -> 0 <= vget y j) /\ sumQ n (vget y) == 1 /\
+  (forall j, (j < n)%nat -> v <= sumQ m (fun i => vget x i * get A i j)) /\
+  (forall i, (i < m)%nat -> sumQ n (fun j => get A i j * vget y j) <= v).
+Proof. exact minmax_certificate_src. Qed.
+Print Assumptions C04_minmax_certificate_src.
+
+(* not proved: termination of the lexicographic rule, i.e. that status 1 is not reported for a large
+   enough max_iter (decided per case by the correspondence run: never observed without a tiny cap) *)
+Definition C04_terminates_full : Prop :=
+  forall c m k Aub bub Aeq beq, exists N, forall max_iter, (N <= max_iter)%nat ->
+    let '(_, _, _, _, status, _) := linprog_simplex c m k Aub bub Aeq beq max_iter opts0 in status <> 1%nat.
+
 (* minmax (tolerances 0, m x n payoff matrix A, every max_iter): if the solve_tableau call inside minmax ends
    with status 0 (minmax discards that status) then x, y are probability vectors, every column payoff of x
    is >= v and every row payoff against y is <= v, hence min_j (x'A)_j = v = max_i (A y)_i *)
@@ -118,6 +204,9 @@ Proof. vm_compute. reflexivity. Qed.
 Example ex_status2_instance :
   linprog_simplex [1; 1] 1 0 [[1; 1]] [-1] [] [] 100 opts0 = ([], [], 0, false, 2%nat, 1%nat).
 Proof. vm_compute. reflexivity. Qed.
+Example ex_status3_instance :
+  linprog_simplex [1; 0] 1 0 [[-1; 1]] [2] [] [] 100 opts0 = ([0; 2], [0], 0, false, 3%nat, 3%nat).
+Proof. vm_compute. reflexivity. Qed.
 Example ex_tab_inv_instance :
   exists T basis, tab_inv 2 7 4 (T0 2 2 0 [[1; 1]; [-1; 0]] [4; -1] [] []) (obj1 2 2 0) T basis /\ rhs_nonneg 2 7 T.
 Proof. eexists. eexists. exact (init_inv 2 2 0 [[1; 1]; [-1; 0]] [4; -1] [] []). Qed.
@@ -133,4 +222,8 @@ Qed.
 Example ex_minmax_instance :
   minmax_inner_status 2 3 [[1; -1; 0]; [-1; 1; 2]] 100 = 0%nat /\
   minmax 2 3 [[1; -1; 0]; [-1; 1; 2]] 100 opts0 = (0, [1 # 2; 1 # 2], [1 # 2; 1 # 2; 0]).
+Proof. vm_compute. split; reflexivity. Qed.
+Example ex_sep_ok_instance :
+  linprog_sep [2; 1] 2 1 [[1; 1]; [-1; 0]] [4; -1] [[1; -1]] [-1] 100 opts_src = true /\
+  minmax_sep 2 3 [[1; -1; 0]; [-1; 1; 2]] 100 opts_src = true.
 Proof. vm_compute. split; reflexivity. Qed.
